@@ -13,6 +13,8 @@
     opt_args    the switch, option by option in command-line order, with its early exits
                 (errx = 1, usage = 1, -L / -V = 0), then default rcmd module and its registration
     opt_verify  exec's post-op (-t with -R exec), target list, negative time-outs, pcp operands
+    opt_args (end) the remote command = the remaining argv words joined by blanks (DSH), source files and
+                destination (PCP);  main's decision what to start: listing, pcp server / client, dsh(), prompt loop
     string_to_int = strtoul, errno / trailing test, `(int)` cast;  atoi = `(int) strtol`;
     copy_username's length test.
     -w words    wcoll_args_process / get_host_rcmd_type as far as they touch the settings of this property:
@@ -461,6 +463,50 @@ def effective (fx : Fixes) (d : Defaults) (p : Pers) (env : Env) (argv : List St
     condition variable when `fanout == threadcount`; with fanout 0 that is before the first thread exists,
     and nobody will ever signal: `none` = blocks forever -/
 def runTerminates (c : Cfg) : Bool := c.fanout ≠ 0
+
+/-! ### what main does with an accepted configuration: the remote command, the copy, the prompt loop -/
+
+/-- the `xstrcat` loop at the end of opt_args (DSH): the remaining argv words joined by single blanks -/
+def joinWords : List Str → Str
+  | [] => []
+  | [w] => w
+  | w :: w' :: rest => w ++ ' ' :: joinWords (w' :: rest)
+
+/-- `opt->cmd`: stays NULL when no word is left after the options -/
+def assembleCmd (operands : List Str) : Option Str :=
+  if operands = [] then none else some (joinWords operands)
+
+/-- PCP: all remaining words but the last are the source files, the last one is the destination
+    (`infile_names`, `outfile_name`) — or, in the client mode pdcp starts on the remote side (-Z), the host to
+    connect back to (`pcp_client_host`; no destination then) -/
+def pcpFiles (client : Bool) (operands : List Str) : List Str × Option Str :=
+  (operands.dropLast, if client then none else operands.getLast?)
+
+/-- what main() does after opt_verify returned true -/
+inductive Next where
+  | info                          -- -q / -Q: opt_list; nothing is contacted
+  | pcpServer | pcpClient         -- the modes pdcp starts itself on the remote side (-z / -Z)
+  | run (cmd : Option Str)        -- dsh (): `some cmd` = the remote command of a DSH run, `none` = a PCP copy
+  | interactive                   -- DSH without a command: the prompt loop reads commands from stdin
+  deriving DecidableEq, Repr
+
+/-- the `if (opt.info_only) ... else if ... ` chain of main() -/
+def plan (p : Pers) (c : Cfg) (operands : List Str) : Next :=
+  if c.infoOnly then .info
+  else if p.isPcp && c.pcpServer then .pcpServer
+  else if p.isPcp && c.pcpClient then .pcpClient
+  else if p.isPcp then .run none
+  else
+    match assembleCmd operands with
+    | some cmd => .run (some cmd)
+    | none => .interactive
+
+/-- main() as a whole, from the environment and argv to what is started: `.error n` = the process exits with n
+    before anything is contacted (opt_env, opt_args or opt_verify refused) -/
+def mainPlan (fx : Fixes) (d : Defaults) (p : Pers) (env : Env) (argv : List Str) : Except Nat (Cfg × Next) :=
+  match effective fx d p env argv with
+  | .exit n => .error n
+  | .ok c => .ok (c, plan p c (getopt (fullString d p) argv).2)
 
 /-- which of the conflicting misc modules A and B of tests/test-modules gets initialised:
     `_mod_initialize_modules_by_name` walks the requested names in order, then the sorted module list -/
